@@ -84,3 +84,7 @@ LEVEL_NOTE = ('Trusted: RefMesh (sim/refmesh.py) as definition of the '
               'cross-checked against the float intervals.')
 TECHNIQUE = ('deterministic simulation: seeded operation-history search in '
              'lock-step with an executable reference model, ddmin replay')
+
+
+def evidence_extra(cov):
+    return {'small_config_state_coverage': l0common.small_config_coverage(cov)}
